@@ -37,3 +37,29 @@ package retention
 //@     assert [files-removed-before-their-segmeta-entry] ghost(0, "segDirsRemoved") == 1
 //@     assert [entries-of-exactly-the-victims] arg0 == segmentsToDelete
 //@ end
+
+// C14, volume- and inode-based passes: segments are deleted oldest first, so
+// the comparator that orders log and metrics segments must compare their true
+// ages: a metrics segment's key is its LatestEpochSec in milliseconds computed
+// in 64 bits (the uint32 product wraps for every date after 1970-02-19, which
+// put every metrics segment before every log segment and shuffled them among
+// themselves).  The closures are the `less` functions handed to sort.Slice.
+//@ spec msOfMetrics(m *structs.MetricsMeta) uint64 = uint64(m.LatestEpochSec) * 1000
+//@ func doVolumeBasedDeletion$1
+//@   props C14
+//@   ensures [metrics-segments-ordered-by-true-age] implies(isdyn((*allEntries)[i], *structs.MetricsMeta) && isdyn((*allEntries)[j], *structs.MetricsMeta), result == (msOfMetrics((*allEntries)[i].(*structs.MetricsMeta)) < msOfMetrics((*allEntries)[j].(*structs.MetricsMeta))))
+//@   ensures [metrics-vs-log-ordered-by-true-age] implies(isdyn((*allEntries)[i], *structs.MetricsMeta) && isdyn((*allEntries)[j], *structs.SegMeta), result == (msOfMetrics((*allEntries)[i].(*structs.MetricsMeta)) < (*allEntries)[j].(*structs.SegMeta).LatestEpochMS))
+//@   ensures [log-vs-metrics-ordered-by-true-age] implies(isdyn((*allEntries)[i], *structs.SegMeta) && isdyn((*allEntries)[j], *structs.MetricsMeta), result == ((*allEntries)[i].(*structs.SegMeta).LatestEpochMS < msOfMetrics((*allEntries)[j].(*structs.MetricsMeta))))
+//@ end
+//@ func doInodeBasedDeletion$1
+//@   props C14
+//@   ensures [metrics-segments-ordered-by-true-age] implies(isdyn((*allEntries)[i], *structs.MetricsMeta) && isdyn((*allEntries)[j], *structs.MetricsMeta), result == (msOfMetrics((*allEntries)[i].(*structs.MetricsMeta)) < msOfMetrics((*allEntries)[j].(*structs.MetricsMeta))))
+//@   ensures [metrics-vs-log-ordered-by-true-age] implies(isdyn((*allEntries)[i], *structs.MetricsMeta) && isdyn((*allEntries)[j], *structs.SegMeta), result == (msOfMetrics((*allEntries)[i].(*structs.MetricsMeta)) < (*allEntries)[j].(*structs.SegMeta).LatestEpochMS))
+//@   ensures [log-vs-metrics-ordered-by-true-age] implies(isdyn((*allEntries)[i], *structs.SegMeta) && isdyn((*allEntries)[j], *structs.MetricsMeta), result == ((*allEntries)[i].(*structs.SegMeta).LatestEpochMS < msOfMetrics((*allEntries)[j].(*structs.MetricsMeta))))
+//@ end
+//@ func DoRetentionBasedDeletion$1
+//@   props C14
+//@   ensures [metrics-segments-ordered-by-true-age] implies(isdyn((*allEntries)[i], *structs.MetricsMeta) && isdyn((*allEntries)[j], *structs.MetricsMeta), result == (msOfMetrics((*allEntries)[i].(*structs.MetricsMeta)) < msOfMetrics((*allEntries)[j].(*structs.MetricsMeta))))
+//@   ensures [metrics-vs-log-ordered-by-true-age] implies(isdyn((*allEntries)[i], *structs.MetricsMeta) && isdyn((*allEntries)[j], *structs.SegMeta), result == (msOfMetrics((*allEntries)[i].(*structs.MetricsMeta)) < (*allEntries)[j].(*structs.SegMeta).LatestEpochMS))
+//@   ensures [log-vs-metrics-ordered-by-true-age] implies(isdyn((*allEntries)[i], *structs.SegMeta) && isdyn((*allEntries)[j], *structs.MetricsMeta), result == ((*allEntries)[i].(*structs.SegMeta).LatestEpochMS < msOfMetrics((*allEntries)[j].(*structs.MetricsMeta))))
+//@ end
